@@ -170,7 +170,7 @@ fn battery<Q: Queue>(q: &Q, stats: &mut Stats) {
 }
 
 fn fault_run<Q: Queue>(case: &Case, stats: &mut Stats) -> Result<bool, Failure> {
-    let cfg = RunCfg { prop: 10, hint_meta: false, tables: false, universe: case.universe.max(1), raw: true };
+    let cfg = RunCfg { prop: 10, hint_meta: false, tables: false, universe: case.universe.max(1), raw: true, strict_trace: false };
     set_tracking(true);
     let mut leaked_drain = false;
     let mut fired_big = false;
